@@ -279,4 +279,45 @@ example : ∃ s, Reach [okAttr] [{ cur := cur0, backup := none }] s ∧
     stopBlocked s = false ∧ (∃ e ∈ s.queue, e.fresh = true) ∧ (stopReplay s).fs = [{ cur := cur0, backup := none }] :=
   ⟨_, ⟨[.start [0]], rfl⟩, by decide⟩
 
+/-! ### cross-audit round 6: further non-vacuity witnesses (appended by the auditor, examples only) -/
+
+private def f0 : FState := { cur := cur0, backup := none }
+
+/-- `queue_order` on a state where all three conjuncts speak about something: two replays started (tickets 1, 0), one
+    flow still queued (ticket 2) -/
+example : ∃ s, Reach [okAttr, okAttr, okAttr] [f0, f0, f0] s ∧ startTickets s.log = [1, 0] ∧
+    s.queue.map (·.ticket) = [2] ∧ s.inflight.isSome = true :=
+  ⟨_, ⟨[.start [0, 1, 2], .take, .send, .finish true, .take], rfl⟩, by decide⟩
+
+/-- `unreplayable_never_queued`: a WebSocket flow, an intercepted flow and a flow without content submitted together
+    with a replayable one — only the replayable one is queued -/
+example : ∃ s, Reach [okAttr, { okAttr with ws := true }, { okAttr with intercepted := true }, { okAttr with hasContent := false }]
+      [f0, f0, f0, f0] s ∧ s.queue.map (·.idx) = [0] :=
+  ⟨_, ⟨[.start [1, 0, 2, 3]], rfl⟩, by decide⟩
+
+/-- `stop_restores_backup` / `stop_restores_pre_iff` on a NON-fresh entry (the F-C53a situation) with the guard
+    `stopBlocked = false`: the flow is set to the backup it carried (`bk = cur0`), which is not its pre-replay state -/
+example : ∃ s, Reach [okAttr] [f0] s ∧ stopBlocked s = false ∧
+    s.queue.map (fun e => (e.fresh, e.bk, e.pre)) = [(false, cur0, { cur0 with ver := 1 })] ∧
+    (stopReplay s).fs.map (·.cur) = [cur0] :=
+  ⟨_, ⟨[.edit 0, .start [0]], rfl⟩, by decide⟩
+
+/-- the same flow queued twice, first occurrence taken but its request not yet out: stop is NOT blocked (the guard of the
+    stop theorems holds while a queued flow is also in flight) and the flow is reverted -/
+example : ∃ s, Reach [okAttr] [f0] s ∧ stopBlocked s = false ∧ s.inflight.isSome = true ∧ s.queue.map (·.idx) = [0] ∧
+    (stopReplay s).fs.map (·.cur) = [cur0] :=
+  ⟨_, ⟨[.start [0, 0], .take], rfl⟩, by decide⟩
+
+/-- `all_started_replays_complete`: its fairness hypothesis is satisfiable after background replays — nothing to take,
+    nothing awaited, no background replay left — and both started replays have finished -/
+example : ∃ s', run (init [okAttr, okAttr] [f0, f0]) [.setopt false, .start [0, 1], .take, .take, .bsend 1, .bfinish 0 true, .bfinish 1 false] = some s' ∧
+    step s' .take = none ∧ (∀ r, step s' (.finish r) = none) ∧ (∀ t r, step s' (.bfinish t r) = none) ∧
+    gstartTickets s'.glog = [1, 0] ∧ gfinTickets s'.glog = [1, 0] :=
+  ⟨_, rfl, by decide, fun _ => rfl, fun _ _ => rfl, by decide, by decide⟩
+
+/-- `finish_sets_outcome`: its hypotheses hold in a reachable state (a replay in flight on an existing flow) -/
+example : ∃ s e ph f, Reach [okAttr] [f0] s ∧ s.inflight = some (e, ph) ∧ s.fs[e.idx]? = some f ∧
+    (step s (.finish false)).isSome = true :=
+  ⟨_, _, _, _, ⟨[.start [0], .take], rfl⟩, rfl, rfl, by decide⟩
+
 end MitmVerif.Props.C53
